@@ -75,7 +75,11 @@ func polnetSecure(carrier string) bool {
 	return carrier == "tcptls" || carrier == "starttls" || carrier == "wss"
 }
 
-func polnetCut(carrier string) (string, string) {
+func polnetCut(carrier string) (string, string) { return polnetLoss(carrier, "cut") }
+
+// polnetLoss: how = "cut" (the relay cuts the carrier) or "sessclose" (the client's multiplexer session closes itself,
+// as its keep-alive does when the peer has gone silent: the loss is then found by Connect's own liveness test).
+func polnetLoss(carrier, how string) (string, string) {
 	rig, err := NewRig(RigOpts{Carrier: carrier, Relay: true, Insecure: true, MustSecure: polnetSecure(carrier)})
 	if err != nil {
 		return "fail:rig", err.Error()
@@ -85,7 +89,13 @@ func polnetCut(carrier string) (string, string) {
 	if first != nil {
 		defer first.Close()
 	}
-	rig.Relay.Cut()
+	if how == "sessclose" {
+		if !upstream.VerifCloseSession(&rig.cli.Upstream) {
+			return "fail:rig", "no session to close"
+		}
+	} else {
+		rig.Relay.Cut()
+	}
 	// the multiplexer notices the loss when the FIN arrives; on loopback that is immediate
 	time.Sleep(300 * time.Millisecond)
 	after, err2 := appEcho(rig.AppAddrs["echo"], 8*time.Second)
@@ -118,6 +128,19 @@ func polnetCut(carrier string) (string, string) {
 		mon = "the local connection on the cut carrier still echoes"
 	case accepted != 2:
 		mon = fmt.Sprintf("relay saw %d physical connections, expected 2", accepted)
+	}
+	if mon == "" {
+		// the replacement session stays: a further local connection is served on it
+		third, err3 := appEcho(rig.AppAddrs["echo"], 8*time.Second)
+		if third != nil {
+			defer third.Close()
+		}
+		_, _, acc3 := rig.Relay.Captured()
+		if err3 != nil {
+			mon = "after the session had been replaced a further local connection was not served: " + err3.Error()
+		} else if acc3 != 2 {
+			mon = fmt.Sprintf("a further local connection opened physical connection #%d instead of reusing the replacement session", acc3)
+		}
 	}
 	return res, mon
 }
@@ -316,6 +339,8 @@ func (polnetComp) Exec(op string) (string, string, string, bool) {
 	switch {
 	case len(f) == 2 && f[0] == "cut":
 		res, mon = polnetCut(f[1])
+	case len(f) == 2 && f[0] == "sessclose":
+		res, mon = polnetLoss(f[1], "sessclose")
 	case len(f) == 3 && f[0] == "fwd" && (f[1] == "ok" || f[1] == "dead"):
 		res, mon = polnetFwd(f[1], f[2])
 	case len(f) == 3 && f[0] == "first":
@@ -329,6 +354,8 @@ func (polnetComp) Exec(op string) (string, string, string, bool) {
 		switch f[0] {
 		case "cut":
 			res2, mon2 = polnetCut(f[1])
+		case "sessclose":
+			res2, mon2 = polnetLoss(f[1], "sessclose")
 		case "fwd":
 			res2, mon2 = polnetFwd(f[1], f[2])
 		default:
@@ -358,6 +385,8 @@ func (polnetComp) Gen(r *Rand, tier string, emit func(string)) {
 	for _, c := range carriers {
 		emit("cut " + c)
 	}
+	emit("sessclose tcp")
+	emit("sessclose ws")
 	if tier != "thorough" {
 		emit("cut tcptls")
 	}
